@@ -131,7 +131,9 @@ def r3_keys(ctx):
     g = ctx.cfg(f)
     rd = ctx.rd(f)
     runs = _run_calls(ctx, f, g)
-    sumvar = [n.ast.targets[0].id for (n, c) in runs if isinstance(n.ast, ast.Assign) and isinstance(n.ast.targets[0], ast.Name)][0]
+    sumvars = [n.ast.targets[0].id for (n, c) in runs if isinstance(n.ast, ast.Assign) and isinstance(n.ast.targets[0], ast.Name)]
+    need(sumvars, 'C10.R3: the summary returned by example.run is not bound to a local in _run_examples')
+    sumvar = sumvars[0]
     read = {}
     for n in walk_scope(f.node):
         k = subscript_key(n)
